@@ -444,10 +444,20 @@ def coq_eval_term(wd, tag, header, term):
 IMPL_RUN = os.path.join(VERIF, "tools/harness/impl_run.py")
 
 
+OUTER_ERRORS = []      # (op, host, result): an op of the harness itself raised - the case was not observed at all
+
+
+def _note_outer(op, host, res):
+    for o in res:
+        if isinstance(o, dict) and o.get("outer"):
+            OUTER_ERRORS.append((op, host, o))
+    return res
+
+
 def run_impl_op(op, cases, modules=(), host=HOST_DEFAULT, timeout=1800, shards=1):
     """Run an implementation-side op over cases (optionally sharded over processes)."""
     if shards <= 1 or len(cases) < 200:
-        return run_json(IMPL_RUN, {"op": op, "cases": cases, "modules": list(modules)}, host=host, timeout=timeout)["results"]
+        return _note_outer(op, host, run_json(IMPL_RUN, {"op": op, "cases": cases, "modules": list(modules)}, host=host, timeout=timeout)["results"])
     from concurrent.futures import ThreadPoolExecutor
     n = len(cases)
     step = (n + shards - 1) // shards
@@ -457,7 +467,7 @@ def run_impl_op(op, cases, modules=(), host=HOST_DEFAULT, timeout=1800, shards=1
     res = []
     for o in outs:
         res += o
-    return res
+    return _note_outer(op, host, res)
 
 
 def correspond(r, tag, header, op, cases, term_fn, modules=(), host=HOST_DEFAULT, chunk=400, max_report=3,
